@@ -293,6 +293,7 @@ private:
         while (!has_pending_events_for_caching_when_transit_event_buffer_empty() &&
                _process_lowest_timestamp_transit_event())
         {
+          QUILL_VERIF_POINT(2, nullptr);
           // We need to be cautious because there are log messages in the lock-free queues
           // that have not yet been cached in the transit event buffer. Logging only the cached
           // messages can result in out-of-order log entries, as messages with larger timestamps
@@ -304,19 +305,23 @@ private:
     {
       // No cached transit events to process, minimal thread workload.
 
+      QUILL_VERIF_POINT(3, reinterpret_cast<void const*>(0));
       // force flush all remaining messages
       _flush_and_run_active_sinks(true, _options.sink_min_flush_interval);
 
+      QUILL_VERIF_POINT(3, reinterpret_cast<void const*>(1));
       // check for any dropped messages / blocked threads
       _check_failure_counter(_options.error_notifier);
 
       // This is useful when BackendTscClock is used to keep it up to date
       _resync_rdtsc_clock();
 
+      QUILL_VERIF_POINT(3, reinterpret_cast<void const*>(2));
       // Also check if all queues are empty
       bool const queues_and_events_empty = _check_frontend_queues_and_cached_transit_events_empty();
       if (queues_and_events_empty)
       {
+        QUILL_VERIF_POINT(3, reinterpret_cast<void const*>(3));
         _cleanup_invalidated_thread_contexts();
         _cleanup_invalidated_loggers();
         _try_shrink_empty_transit_event_buffers();
@@ -411,6 +416,7 @@ private:
         while (!has_pending_events_for_caching_when_transit_event_buffer_empty() &&
                _process_lowest_timestamp_transit_event())
         {
+          QUILL_VERIF_POINT(2, nullptr);
           // We need to be cautious because there are log messages in the lock-free queues
           // that have not yet been cached in the transit event buffer. Logging only the cached
           // messages can result in out-of-order log entries, as messages with larger timestamps
@@ -437,6 +443,7 @@ private:
 
     for (ThreadContext* thread_context : _active_thread_contexts_cache)
     {
+      QUILL_VERIF_POINT(1, thread_context);
       assert(thread_context->has_unbounded_queue_type() || thread_context->has_bounded_queue_type());
 
       if (thread_context->has_unbounded_queue_type())
@@ -728,6 +735,7 @@ private:
    */
   QUILL_ATTRIBUTE_HOT bool _process_lowest_timestamp_transit_event()
   {
+    QUILL_VERIF_POINT(8, nullptr);
     // Get the lowest timestamp
     uint64_t min_ts{std::numeric_limits<uint64_t>::max()};
     ThreadContext* thread_context{nullptr};
@@ -773,6 +781,7 @@ private:
     }
 
     thread_context->_transit_event_buffer->pop_front();
+    QUILL_VERIF_POINT(4, flush_flag);
 
     if (flush_flag)
     {
